@@ -1,0 +1,21 @@
+//go:build verif
+
+// Contracts for package sys, read by /verif's verifier (fovc).  Comment-only.
+// The file system is an abstract global: fsr[p] (p is readable), fsc[p] (its content).
+
+package sys
+
+//@ mode slices=value strings=smt
+
+//@ func ReadFile
+//@   props C16 C18 C07
+//@   panics never
+//@   ensures ok: result.E1 == glob(fsr)[file]
+//@   ensures content: result.E1 ==> result.E0 == glob(fsc)[file]
+
+//@ func WriteFile
+//@   props C16 C18 C07
+//@   modifies glob:fsr glob:fsc
+//@   panics never
+//@   ensures done: result ==> glob(fsc) == store(old(glob(fsc)), file, content) && glob(fsr) == store(old(glob(fsr)), file, true)
+//@   ensures failed: !result ==> glob(fsc) == old(glob(fsc)) && glob(fsr) == old(glob(fsr))
